@@ -228,6 +228,31 @@ func checkC05(c *Check) {
 				})
 				if !(mentionsField(r.Info, ex, "TLSRequireOverride") && mentionsField(r.Info, ex, "allowSecOverride")) {
 					msg = "the policy list is skipped on a condition other than TLSRequireOverride && allowSecOverride: " + exprStr(cd)
+				} else {
+					// both are needed: with only one of the two set the enclosing condition must let the policies run
+					for _, only := range []string{"TLSRequireOverride", "allowSecOverride"} {
+						var val func(atom ast.Expr) (bool, bool)
+						val = func(atom ast.Expr) (bool, bool) {
+							atom = ast.Unparen(atom)
+							if sx, ok := atom.(*ast.SelectorExpr); ok && fieldOf(r.Info, sx) != nil {
+								switch sx.Sel.Name {
+								case "TLSRequireOverride", "allowSecOverride":
+									return sx.Sel.Name == only, true
+								}
+							}
+							if id, ok := atom.(*ast.Ident); ok {
+								if o, ok := r.Info.Uses[id].(*types.Var); ok && !o.IsField() {
+									if def, n := localDef(r.Info, r.FI.Decl.Body, o); n == 1 && def != nil {
+										return evalBoolUnder(def, val)
+									}
+								}
+							}
+							return false, false
+						}
+						if v, known := evalBoolUnder(cd, val); !known || !v {
+							msg = "the security policies are skipped with only " + only + " set (both the message's TLS-Required: No and the administrator's opt-in are required): " + exprStr(cd)
+						}
+					}
 				}
 			}
 			inspectNoLit(loops[0].Body, func(x ast.Node) bool {
